@@ -118,6 +118,14 @@ class Interp(object):
       v = self.value(node.value, st)
       st.env[node.target.id] = v
       return v
+    if isinstance(node, ast.UnaryOp) and not isinstance(node.op, ast.Not):
+      v = self.value(node.operand, st)
+      if isinstance(v, Const) and isinstance(v.v, (int, float)):
+        if isinstance(node.op, ast.USub):
+          return Const(-v.v)
+        if isinstance(node.op, ast.UAdd):
+          return Const(+v.v)
+      return Sym(norm(node), node)
     if isinstance(node, (ast.BoolOp, ast.Compare, ast.UnaryOp)):
       t = self.decided(node, st)
       if t is not None:
